@@ -12,7 +12,26 @@ A_COMMON = [
     "formatting/logging are not subjects: fmt.Sprintf/Errorf produce opaque strings when arguments are symbolic",
 ]
 
+LEDGER = P + "ledger."
+A_STORE = [
+    "A-IAVL: cosmos/iavl MutableTree + tm-db goleveldb behave as a versioned finite map (Get/Set/Remove/Has/Iterate ascending/SaveVersion v+1/Load latest/LazyLoadVersion(n<=0 -> latest, n>latest -> error)); root hash = injective function of the ordered write history; validated on every run by replaying sampled paths on the real goleveldb/iavl",
+    "A-CODEC: json/proto/rlp Marshal = snapshot of exported fields (the repository's own Marshal*/Unmarshal* methods are executed), Unmarshal = fresh deep copy; decoding hostile concrete bytes returns an error",
+]
+
 CHECKS = {
+    "C18": {
+        "quick": [
+            {"name": LEDGER + "ZZ_C18_Seq3", "reach": ["C18 end"], "bound": "2 keys x 3 operations out of {SetFinality,GetFinality,DelFinality,Set,Get,Del,Read,Commit,ImmutableLedgerAt.Read,Close+reopen}, symbolic values, then a full sweep of all views/versions and a final Commit"},
+        ],
+        "thorough": [
+            {"name": LEDGER + "ZZ_C18_Seq3", "reach": ["C18 end"], "bound": "2 keys x 3 ops (+reopen)"},
+            {"name": LEDGER + "ZZ_C18_Seq4", "reach": ["C18 end"], "bound": "2 keys x 4 ops (+reopen)", "validate": 40},
+        ],
+        "bounds": "operation sequences of length 3 (quick) / 4 (thorough) over 2 keys, <=5 versions; item values symbolic int64",
+        "outside": "Cancel* operations and the mempool view of a key after a consensus delete (not fixed by the statement); longer sequences; more than 2 keys; IAVL/goleveldb internals (A-IAVL)",
+        "assumptions": A_COMMON + A_STORE,
+        "maxpaths": 3000000,
+    },
     "C14": {
         "quick": [
             {"name": STAKE + "ZZ_C14_S1", "reach": ["S1 end"], "bound": "<=3 stakes, symbolic powers in (0,2^55], ratio in [0,100]"},
